@@ -96,6 +96,14 @@ pub fn install_panic_hook() {
         if loud {
             eprintln!("panic at {}:{}: {}", file, line, msg);
         }
+        if msg.starts_with("unsafe precondition(s) violated") || msg.contains("cannot unwind") || msg.contains("panic in a destructor") {
+            // std's debug UB checks ("unsafe precondition(s) violated") and panics in no-unwind contexts abort the
+            // process right after this hook: say why and where, for the driver's process-abort protocol
+            eprintln!("non-unwinding panic at {}:{}: {}", file, line, msg);
+            if !cfg!(miri) {
+                eprintln!("{}", std::backtrace::Backtrace::force_capture());
+            }
+        }
         let via_library = if cfg!(miri) || EXPLICIT_DEPTH.with(|d| d.get()) > 0 {
             false
         } else {
